@@ -318,21 +318,21 @@ func init() {
 	only("C16", map[string][]string{"R-ERRMODEL": {"chord-from-length2-clamped"}, "R-CONST": {"intersection", "projection", "robustNormal", "s2.dblError"}})
 	only("C17", map[string][]string{"R-ORDERINDEP": {"PointCross"}, "R-CONST": {"interiorDist", "minUpdate", "ChordAngle).Max", "edge_distances"}, "R-UNITS": {"edge_distances", "UpdateM", "updateEdge", "s2.UpdateMaxDistance", "arc-length-through-chord"}, "R-CONSTREL": {"Polyline).Project"}})
 	only("C20", map[string][]string{"R-CONST": {"Snapper", "Tessellat", "tessellat"}, "R-UNITS": {"chord-length-as-angle", "Polyline", "findEndVertex", "Tessellator", "Projection"}})
-	only("C12", map[string][]string{"R-CONST": {"Cell)", "PaddedCell", "interiorDist", "maxXYZtoUVError", "cellPadding", "stuv", "poleMinLat"}, "R-MIRROR": {"projection", "ShrinkToFit"}, "R-UNITS": {"Cell)"}, "R-PADDING": {"Cell).RectBound"}, "R-GUARD": {"Cell.MaxDistanceToEdge", "Cell.DistanceToCell", "Cell.MaxDistanceToCell"}, "R-UPDATER": {"(s2.Cell)."}, "R-TABLE": {"Cell.RectBound"}})
+	only("C12", map[string][]string{"R-CONST": {"Cell)", "PaddedCell", "interiorDist", "maxXYZtoUVError", "cellPadding", "stuv", "poleMinLat"}, "R-MIRROR": {"projection", "ShrinkToFit", "distanceInternal"}, "R-UNITS": {"Cell)"}, "R-PADDING": {"Cell).RectBound", "Cell).CapBound"}, "R-GUARD": {"Cell.MaxDistanceToEdge", "Cell.DistanceToCell", "Cell.MaxDistanceToCell"}, "R-UPDATER": {"(s2.Cell)."}, "R-TABLE": {"Cell.RectBound"}})
 	only("C11", map[string][]string{"R-RANGE": {"CellID)", "CellUnion", "cellunion", "CellIndex", "cellIndex", "s2intersect", "wrap-free"}})
 	predicateConsts := []string{"maxDeterminantError", "detErrorMultiplier", "triage", "stableSign", "cosDistance", "sin2Distance", "s2.dblEpsilon", "s2.dblError", "r1.dblEpsilon", "s1.dblEpsilon"}
 	clipConsts := []string{"edgeClip", "faceClip", "intersectsRect", "cellPadding", "ShapeIndex)", "boundaryApproxIntersects", "ShrinkToFit"}
 	only("C01", map[string][]string{"R-MIRROR": {"AdvanceWrap", "CellID.", "cellIDFromFaceIJWrap", "int-shift", "projection", "stToUV", "wrap:"}, "R-CONST": {"Cell).ContainsPoint", "maxXYZtoUVError"}, "R-RANGE": {"CellID)", "CellUnion", "cellunion"}})
 	only("C02", map[string][]string{"R-CONST": predicateConsts, "R-CONSTREL": {"r3.MaxPrec", "stableSign", "maxDeterminantError"}})
 	only("C03", map[string][]string{"R-CONST": {"EdgeCrosser", "intersection", "projection"}, "R-CONSTREL": {"stableSign", "maxDeterminantError", "r3.MaxPrec"}, "R-STAGES": {"stableSign:declines", "CrossingSign:delegates", "RobustSign", "expensiveSign", "exactSign", "bound:", "symbolicallyPerturbedSign", "stage-callers"}, "R-GUARD": {"VertexCrossing"}})
-	only("C05", map[string][]string{"R-MIRROR": {"intersectsLatEdge"}, "R-SPECIAL": {"ordered-interval", "closed-predicates"}, "R-SQRT": {"intersectsLatEdge"}, "R-CONST": clipConsts, "R-PADDING": {"boundaryApproxIntersects", "normalizeCovering", "replaceCellsWithAncestor"}, "R-CYCLE": {"coverer", "CellUnionBound"}, "R-PARITY": {"iteratorContainsPoint", "ReferencePoint"}, "R-RANGE": {"ShapeIndexIterator"}, "R-PARTITION": {"Polygon.Invert"}, "R-ACCUM": {"vertex-only-bound"}})
+	only("C05", map[string][]string{"R-MIRROR": {"intersectsLatEdge", "all-four-cell-edges"}, "R-SPECIAL": {"ordered-interval", "closed-predicates"}, "R-SQRT": {"intersectsLatEdge"}, "R-CONST": clipConsts, "R-PADDING": {"boundaryApproxIntersects", "normalizeCovering", "replaceCellsWithAncestor"}, "R-CYCLE": {"coverer", "CellUnionBound"}, "R-PARITY": {"iteratorContainsPoint", "ReferencePoint"}, "R-RANGE": {"ShapeIndexIterator"}, "R-PARTITION": {"Polygon.Invert"}, "R-ACCUM": {"vertex-only-bound"}})
 	only("C06", map[string][]string{"R-CONST": clipConsts})
 	only("C07", map[string][]string{"R-ROLES": {"hasCrossing", "(*s2.Loop).", "initOneLoop", "WedgeContains"}, "R-PARITY": {"loopCrosser"}, "R-INIT": {"Invert"}, "R-GUARD": {"findVertex", "getCells"}, "R-NAMEPAIR": {"wedge:", "Loop", "Relation"}})
 	only("C12", map[string][]string{"R-ERRMODEL": {"chord-from-length2-clamped"}, "R-SQRT": {"Cell", "edgeDistance", "uvToST", "expandEndpoint"}})
 	only("C01", map[string][]string{"R-SQRT": {"uvToST", "expandEndpoint"}, "R-UNITS": {"latitude-by-asin"}})
 	only("C08", map[string][]string{"R-SQRT": {"Target"}, "R-SPARSEID": {"EdgeQuery", "scan"}, "R-CONSTREL": {"findEdgesInternal", "setMaxError", "IsConservative", "initCovering"}, "R-CYCLE": {"EdgeQuery", "CellUnionBound"}})
 	only("C09", map[string][]string{"R-CONST": {"siTitoPiQi"}, "R-SELFCMP": {"scan", "xyzToFaceSiTi", "stuv", "pointcompression", "s2."}, "R-GUARD": {"xyzToFaceSiTi"}, "R-DECSHAPE": {"readfull", "asByteReader"}})
-	only("C10", map[string][]string{"R-CONST": {"RectBounder", "ExpandForSubregions", "Cell).RectBound", "Cap).AddCap", "poleMinLat"}, "R-PADDING": {"Cap).RectBound", "Cell).RectBound"}, "R-SAMEFACE": {"exact:"}, "R-UNITS": {"longitude-wrap", "latitude-by-asin"}, "R-ROLES": {"initOneLoop"}, "R-PARTITION": {"Polygon.Invert"}, "R-TABLE": {"Cell.RectBound"}, "R-CONSTREL": {"ExpandForSubregions", "RectBounder"}})
+	only("C10", map[string][]string{"R-CONST": {"RectBounder", "ExpandForSubregions", "Cell).RectBound", "Cap).AddCap", "poleMinLat"}, "R-PADDING": {"Cap).RectBound", "Cell).RectBound", "Cell).CapBound"}, "R-SAMEFACE": {"exact:"}, "R-UNITS": {"longitude-wrap", "latitude-by-asin"}, "R-ROLES": {"initOneLoop"}, "R-PARTITION": {"Polygon.Invert"}, "R-TABLE": {"Cell.RectBound"}, "R-CONSTREL": {"ExpandForSubregions", "RectBounder"}})
 	only("C18", map[string][]string{"R-CONST": {"turningAngleMaxError", "PointArea"}, "R-ROLES": {"CanonicalFirstVertex", "initOneLoop"}, "R-STAGES": {"stage-callers"}, "R-UNITS": {"raw-longitude-span"}})
 	only("C19", map[string][]string{"R-ROLES": {"ChordAngle"}})
 	// error budgets of kernels whose own properties (C16, C17, C20) are not claimed are reported where the claimed
